@@ -1,5 +1,6 @@
 //! vharness: drives the real vibrato implementation on generated cases and prints
 //! one protocol line per case (input + implementation observation).
+mod conn;
 mod corpus;
 mod csvs;
 mod gen;
@@ -243,12 +244,6 @@ fn tok_profile(profile: &str, seed: u64, n: usize, out: &mut dyn Write) {
 fn corrupt(rng: &mut Rng, d: &mut gen::DictSrc) -> String {
     let which = rng.below(4);
     let name = ["lex", "matrix", "char", "unk"][which];
-    let file: &mut Vec<u8> = match which {
-        0 => &mut d.lex,
-        1 => &mut d.matrix,
-        2 => &mut d.chardef,
-        _ => &mut d.unk,
-    };
     let (nl, nr) = (d.num_left, d.num_right);
     let file: &mut Vec<u8> = match which {
         0 => &mut d.lex,
@@ -448,6 +443,21 @@ fn main() {
         }
         "replayfile" => {
             replay::run(&args[2], &mut out);
+        }
+        "conn" => {
+            let seed: u64 = args[2].parse().unwrap();
+            let n: usize = args[3].parse().unwrap();
+            conn::run_conn(seed, n, &mut out);
+        }
+        "conn3" => {
+            let seed: u64 = args[2].parse().unwrap();
+            let n: usize = args[3].parse().unwrap();
+            conn::run_conn3(seed, n, &mut out);
+        }
+        "scorer" => {
+            let seed: u64 = args[2].parse().unwrap();
+            let n: usize = args[3].parse().unwrap();
+            conn::run_scorer(seed, n, &mut out);
         }
         "corpus" => {
             let seed: u64 = args[2].parse().unwrap();
